@@ -120,6 +120,50 @@ def main():
                  'for (funding, commitment_tx) in core::iter::once(&self.funding).chain(self.pending_funding.iter()).zip(commitment_txs)',
                  'let funding_outpoint_spent = trusted_tx.input[0].previous_output; if funding_outpoint_spent != funding.funding_outpoint().into_bitcoin_outpoint() { return Err('):
         if need not in v: raise TranslateError('verify_matching_commitment_transactions: `%s…` not found' % need[:70])
+    # ---- verify_matching_commitment_transactions: the cross-version comparisons (TRANSLATED, round 6) ---------------------------------
+    VW = 'verify_matching_commitment_transactions'
+    if 'let mut other_commitment_tx = None::<&CommitmentTransaction>; for (funding, commitment_tx) in' not in v:
+        raise TranslateError('%s: `other_commitment_tx` is no longer initialised to None right before the loop' % VW)
+    oi = v.find('if let Some(other_commitment_tx) = other_commitment_tx {')
+    if oi < 0 or v.count('if let Some(') != 1: raise TranslateError('%s: expected exactly one `if let Some(other_commitment_tx) = other_commitment_tx {`' % VW)
+    os_ = v.index('{', oi); oe = match_brace(v, os_)
+    blk = v[os_ + 1:oe - 1].strip()
+    tail = v[oe:].strip()
+    if tail == 'other_commitment_tx = Some(commitment_tx); } Ok(()) }': predecessor = 'true'
+    elif tail == '} Ok(()) }': predecessor = 'false'     # nothing is ever compared: the theorem breaks
+    else: raise TranslateError('%s: unexpected statements after the comparison block: `%s`' % (VW, tail[:80]))
+    if v.index('funding_outpoint_spent != funding.funding_outpoint()') > oi: raise TranslateError('%s: the funding-outpoint check moved behind the comparisons' % VW)
+    ATTR = {'commitment_number': 'number', 'per_commitment_point': 'point', 'negotiated_feerate_per_kw': 'feerate'}
+    cmps, pos, lets_v = [], 0, {}
+    while pos < len(blk):
+        restb = blk[pos:]
+        m1 = re.match(r'if commitment_tx\.(\w+)\(\) != other_commitment_tx\.(\w+)\(\) \{ return Err\("([^"]*)"\); \}\s*', restb)
+        m2 = re.match(r'let (\w+) = (commitment_tx|other_commitment_tx)\.nondust_htlcs\(\);\s*', restb)
+        m3 = re.match(r'if (\w+)\.len\(\) != (\w+)\.len\(\) \{ return Err\("([^"]*)"\); \}\s*', restb)
+        m4 = re.match(r'for \((\w+), (\w+)\) in (\w+)\.iter\(\)\.zip\((\w+)\.iter\(\)\) \{ if !(\w+)\.is_data_equal\((\w+)\) \{ return Err\("([^"]*)"\); \} \}\s*', restb)
+        if m1:
+            if m1.group(1) != m1.group(2) or m1.group(1) not in ATTR: raise TranslateError('%s: comparison of `%s()` with `%s()` is not one the model knows' % (VW, m1.group(1), m1.group(2)))
+            cmps.append(('%s tx != %s other' % (ATTR[m1.group(1)], ATTR[m1.group(1)]), m1.group(3))); pos += m1.end()
+        elif m2: lets_v[m2.group(1)] = m2.group(2); pos += m2.end()
+        elif m3:
+            if {lets_v.get(m3.group(1)), lets_v.get(m3.group(2))} != {'commitment_tx', 'other_commitment_tx'}: raise TranslateError('%s: the length comparison is not between the two transactions\' nondust_htlcs()' % VW)
+            cmps.append(('htlcCount tx != htlcCount other', m3.group(3))); pos += m3.end()
+        elif m4:
+            a, b_, la, lb, ca, cb = m4.group(1, 2, 3, 4, 5, 6)
+            if {lets_v.get(la), lets_v.get(lb)} != {'commitment_tx', 'other_commitment_tx'} or {ca, cb} != {a, b_}: raise TranslateError('%s: the is_data_equal loop does not pair the two transactions\' nondust HTLCs' % VW)
+            cmps.append(('!(htlcsDataEqual tx other)', m4.group(7))); pos += m4.end()
+        else: raise TranslateError('%s: cannot translate the comparison block at `%s`' % (VW, restb[:90]))
+    # ---- HTLCOutputInCommitment::is_data_equal (TRANSLATED, round 6) ------------------------------------------------------------------
+    cu = strip_comments(open(os.path.join(REPO, 'lightning/src/ln/chan_utils.rs')).read())
+    de = body(cu, 'is_data_equal')
+    de_terms = [t.strip() for t in de.strip()[1:-1].split('&&')]
+    FIELDS = ('offered', 'amount_msat', 'cltv_expiry', 'payment_hash')
+    de_lean = []
+    for t in de_terms:
+        mt = re.fullmatch(r'self\.(\w+) == other\.(\w+)', t)
+        if not mt or mt.group(1) != mt.group(2) or mt.group(1) not in FIELDS: raise TranslateError('is_data_equal: cannot translate the term `%s`' % t)
+        de_lean.append('(%s a == %s b)' % (mt.group(1), mt.group(1)))
+    if not de_lean: raise TranslateError('is_data_equal: no comparison')
     # ---- renegotiated_funding ---------------------------------------------------------------------------------------------------------
     r = body(src, 'renegotiated_funding')
     for need in ('self.funding.counterparty_claimable_outpoints.get(txid).unwrap()', 'let mut htlcs_with_sources = current_counterparty_commitment_htlcs.clone();',
@@ -160,6 +204,17 @@ def main():
          'def pendingSrc (k : Nat) : Nat := %s' % pend_src,
          '/-- renegotiated_funding: `htlc.transaction_output_index = alternative_htlc.transaction_output_index` is present -/',
          'def renegIndexFromAlternative : Bool := %s' % reneg, '',
+         '/-- verify_matching_commitment_transactions: the comparisons between a transaction `tx` and `other_commitment_tx`, in the code\'s order;',
+         '    `some msg` = `return Err(msg)` -/',
+         'def versionMismatch {T : Type} (number point feerate htlcCount : T → Nat) (htlcsDataEqual : T → T → Bool) (tx other : T) : Option String :=',
+         ] + \
+        ['  %s %s then some "%s"' % ('if' if i == 0 else 'else if', c, msg) for i, (c, msg) in enumerate(cmps)] + \
+        ['  %snone' % ('else ' if cmps else ''),
+         '/-- `other_commitment_tx = Some(commitment_tx)` is the last statement of the loop body: every transaction is compared with its PREDECESSOR -/',
+         'def verifyOtherIsPredecessor : Bool := %s' % predecessor,
+         '/-- ln/chan_utils.rs HTLCOutputInCommitment::is_data_equal -/',
+         'def isDataEqual {H : Type} (offered : H → Bool) (amount_msat cltv_expiry payment_hash : H → Nat) (a b : H) : Bool :=',
+         '  ' + ' && '.join(de_lean), '',
          'end Ldk.ScopeData.Gen', '']
     text = '\n'.join(L).replace('(k : Nat) : Nat := 0', '(_k : Nat) : Nat := 0')
     old = open(OUT).read() if os.path.exists(OUT) else None
